@@ -25,6 +25,17 @@ type encW[T any] struct{ e *avro.Encoder[T] }
 func (w encW[T]) Encode(p unsafe.Pointer) error { return w.e.Encode((*T)(p)) }
 func (w encW[T]) Flush() error                  { return w.e.Flush() }
 
+// NewFor returns the constructor of a real generic Encoder[T] for any static type T.
+func NewFor[T any]() func(w io.Writer, comp string, blockSize int) (Enc, error) {
+	return func(w io.Writer, comp string, blockSize int) (Enc, error) {
+		e, err := avro.NewEncoderFor[T](w, avro.Compression(comp), blockSize)
+		if err != nil {
+			return nil, err
+		}
+		return encW[T]{e}, nil
+	}
+}
+
 type Static struct {
 	Probe univ.Probe
 	New   func(w io.Writer, comp string, blockSize int) (Enc, error)
